@@ -224,6 +224,35 @@ func (d *D) Base(idx int, ctx *core.Ctx) *core.Scenario {
 		sc.Kind = "fmt-stdin"
 		return sc
 	}
+	if idx%13 == 2 {
+		// several files on one command line in every pattern of formatted (F), unformatted (U) and
+		// unparsable (X) - plain files and archives mixed: the status of -c is about ALL of them, and
+		// what -w did to an earlier file must not depend on a later one
+		patterns := []string{"UF", "FU", "UFF", "FUF", "FFU", "XF", "FX", "UX", "XU", "FF", "UU", "UFU", "XFF", "FXF"}
+		pat := patterns[(idx/13)%len(patterns)]
+		texts := map[byte]string{'F': "x := 1\nprint x\n", 'U': "x:=1\nprint   x\n", 'X': "x := \nprint )\n"}
+		sc.Files = nil
+		argv := []string{"fmt", []string{"-c", "-w"}[(idx/13/len(patterns)+idx)%2]}
+		for i := 0; i < len(pat); i++ {
+			name := fmt.Sprintf("f%d.evy", i)
+			content := texts[pat[i]]
+			if (idx/13+i)%3 == 0 {
+				name = fmt.Sprintf("f%d.txtar", i)
+				ar := &txtar.Archive{Comment: []byte("pattern " + pat + "\n")}
+				ar.Files = append(ar.Files, txtar.File{Name: "one.evy", Data: []byte("print 1\n")}, txtar.File{Name: "two.evy", Data: []byte(content)})
+				if i%2 == 1 {
+					ar.Files[0], ar.Files[1] = ar.Files[1], ar.Files[0]
+				}
+				content = string(txtar.Format(ar))
+			}
+			sc.Files = append(sc.Files, core.FileSpec{Name: name, Mode: modes[(idx+i)%len(modes)], Content: content})
+			argv = append(argv, name)
+		}
+		sc.Argv = argv
+		sc.Stdin = ""
+		sc.Kind = "fmt-pattern:" + pat
+		return sc
+	}
 	if idx%11 == 6 && nfiles > 0 && sc.Kind == "fmt" {
 		// the first file has a second name (hard link) that is not on the command line, e.g. a
 		// snapshot made with cp -l: whatever the command does to the named file, and wherever it is
